@@ -50,7 +50,8 @@ def vocab_from_spec(spec):
     for sel, srcs in sorted(flows.items()):
         # with transfers, 'a:' / ':b' / 'a:a' also match the transfer links: still ordinary sources
         add("F", sel, all(kinds[s] == "ord" for s in srcs))
-    if has_transfer:
+    tr_sources = {k.split(">")[0] for tr in spec["data"].get("tr", []) for k in tr["e"]}
+    if has_transfer and set(spec["pops"]) <= tr_sources:  # 'c:c' matches the transfer links, which exist only in populations people leave
         for c in spec["comps"]:
             if c["kind"] == "ord":
                 add("F", "%s:%s" % (c["name"], c["name"]), True)
@@ -223,8 +224,10 @@ class Ref:
         if ":" in name:
             ls = self.links(pop, name)
         else:
+            from atomica.model import Parameter
+
             x = self.var(pop, name)
-            if hasattr(x, "links") and not hasattr(x, "source"):  # Parameter
+            if isinstance(x, Parameter):
                 ls = list(x.links)
                 if not ls:
                     raise KeyError("no weight for non-transition parameter %s" % name)
